@@ -68,6 +68,11 @@ CLAIMED = {
    "DESIGN.md §4 C13",
    "Trusted: POSIX rename atomicity, os.CreateTemp uniqueness; recognised statement idioms of the repository (anything else is reported, not passed); the classification table of map ranges (6 symbols with reasons, the 'sorted afterwards' ones re-verified).",
    "static: typestate / must-pass-through on typed syntax and go/ssa dominance; sibling layout comparison; determinism lint"),
+ "C03": ("other",
+   "Static decision of structural necessary conditions for every byte string: the validator's accepted opcode set (exhaustive finite-domain evaluation of its dispatch over 256 byte values plus all named prefixed opcodes: 509 opcodes) is included in the arm sets of every opcode dispatcher of both engines; every constant-expression global.get acceptance consults mutability, type and import range; every input-sized decoder allocation is capped by the remaining input (one known finding: locals); program-counter advances use decoder sizes only; every function body reaches the validator; the if-without-else check compares types. Termination/allocation bounds in general and full type soundness are not decided.",
+   "DESIGN.md §4 C03",
+   "Trusted: constant evaluation by go/types; the validator's dispatch is an if/else-if chain over the opcode (anything else is undecided); opcode classes by the exported constant names of internal/wasm.",
+   "static: exhaustiveness (finite-domain evaluation + case-label set inclusion), consult/taint rules on typed syntax"),
 }
 
 NOT_APPLICABLE = {
